@@ -141,17 +141,27 @@ def conversions(tdgl, args, tmp):
 
 
 def solved_relations(tdgl, args, tmp):
-    """A tiny solved device; returns relation observations [{name, what, a, b}] as floats."""
+    """A tiny device solved in unit system args["u"] = [l, f, c] (exponents of ten of the length, field and current units; mixed
+    prefixes allowed); returns relation observations [{name, what, a, b}] as floats, all brought to SI by the harness."""
     import numpy as np
     from scipy.constants import mu_0
     from tdgl.em import biot_savart_2d, current_loop_vector_potential
 
-    from . import devices, twin
+    from . import units as U
 
-    a = dict(dev=args.get("dev", "barhole"), current=6.0, field=0.8, adaptive=False, dt=2.0 ** -6, solve_time=12 * 2.0 ** -6, k=4)
-    dev = twin.build_device(tdgl, a)
+    u = args.get("u", [-6, -3, -6])
+    ln, fu, cu = U.unit_names(u)
+    LU, FUv = 10.0 ** u[0], 10.0 ** u[1]
+    dev = U.twin_device(tdgl, args.get("dev", "barhole"), u)
+    nums = U.numbers(u)
     work = tempfile.mkdtemp(prefix="fields", dir=tmp)
-    sol = tdgl.solve(dev, twin.options(tdgl, a, os.path.join(work, "o.h5")), **twin.drive(tdgl, a))
+    dt = 2.0 ** -6
+    opt = tdgl.SolverOptions(solve_time=12 * dt, dt_init=dt, adaptive=False, save_every=4, progress_interval=10 ** 9, pause_on_interrupt=False,
+                             output_file=os.path.join(work, "o.h5"), field_units=fu, current_units=cu)
+    cur = 2.0 * nums["I"]
+    sol = tdgl.solve(dev, opt, applied_vector_potential=2.0 * nums["B"], terminal_currents={"source": cur, "drain": -cur})
+    B_phys = 2.0 * U.PHYS["B"]
+    tag = f"[{ln},{fu},{cu}] "
     rel = []
 
     def add(name, what, x, y, scale=None):
@@ -159,14 +169,15 @@ def solved_relations(tdgl, args, tmp):
             x = x() if callable(x) else x
             y = y() if callable(y) else y
         except Exception as e:
-            rel.append({"name": name, "what": f"{what}: the real code raised {type(e).__name__}: {e}"[:300], "a": [0.0], "b": [1.0], "scale": 1.0})
+            rel.append({"name": name, "what": f"{tag}{what}: the real code raised {type(e).__name__}: {e}"[:300], "a": [0.0], "b": [1.0], "scale": 1.0})
             return
-        rel.append({"name": name, "what": what, "a": np.asarray(x, dtype=float).reshape(-1).tolist(), "b": np.asarray(y, dtype=float).reshape(-1).tolist(),
+        rel.append({"name": name, "what": tag + what, "a": np.asarray(x, dtype=float).reshape(-1).tolist(), "b": np.asarray(y, dtype=float).reshape(-1).tolist(),
                     "scale": None if scale is None else float(scale)})
 
-    pos = np.array([[0.3, 0.2, 0.5], [-1.0, 0.7, 1.0], [2.0, -1.0, 0.4], [4.0, 3.0, 2.0], [0.0, 0.0, -0.8]])
+    pos = np.array(U.FIELD_POINTS_UM) * (1e-6 / LU)          # in length_units
+    ev_m = pos * LU
     m = lambda q: np.asarray(q.magnitude if hasattr(q, "magnitude") else q)
-    # ---- field_at_position
+    # ---- field_at_position (default units: field_units)
     tot_z = m(sol.field_at_position(pos, vector=False))
     parts_z = sol.field_at_position(pos, vector=False, return_sum=False)
     tot_v = m(sol.field_at_position(pos, vector=True))
@@ -181,36 +192,59 @@ def solved_relations(tdgl, args, tmp):
     ar = dev.mesh.areas * xi ** 2
     Js = sol.supercurrent_density.to("A / m").magnitude
     Jn = sol.normal_current_density.to("A / m").magnitude
-    ev_m = pos * 1e-6
-    add("MatchesDirectSum", "field_at_position (mT) vs direct Biot-Savart sum in SI", tot_v, ref_biot_savart(np, ev_m, pts, Js + Jn, ar) * 1e3)
-    add("MatchesDirectSum", "supercurrent part vs direct sum", m(parts_v.supercurrent), ref_biot_savart(np, ev_m, pts, Js, ar) * 1e3)
-    add("UnitChoice", "field_at_position units uT vs mT", lambda: m(sol.field_at_position(pos, vector=True, units="uT")) * 1e-3, tot_v)
-    add("UnitChoice", "field_at_position units T vs mT", lambda: m(sol.field_at_position(pos, vector=False, units="T")) * 1e3, tot_z)
-    add("HBConsistent", "field_at_position units A/m vs mT / mu0", lambda: m(sol.field_at_position(pos, vector=True, units="A/m")), tot_v * 1e-3 / mu_0)
-    add("HBConsistent", "field_at_position units uA/um vs mT / mu0", lambda: m(sol.field_at_position(pos, vector=False, units="uA/um")), tot_z * 1e-3 / mu_0)
-    # linearity of the real kernels on the solution's currents (device units)
-    J_s = sol.supercurrent_density.to("uA / um").magnitude
-    J_n = sol.normal_current_density.to("uA / um").magnitude
+    add("MatchesDirectSum", "field_at_position (to tesla) vs direct Biot-Savart sum in SI", tot_v * FUv, ref_biot_savart(np, ev_m, pts, Js + Jn, ar))
+    add("MatchesDirectSum", "supercurrent part vs direct sum", m(parts_v.supercurrent) * FUv, ref_biot_savart(np, ev_m, pts, Js, ar))
+    add("MatchesDirectSum", "normal-current part (scalar) vs direct sum", m(parts_z.normal_current) * FUv, ref_biot_savart(np, ev_m, pts, Jn, ar)[:, 2])
+    add("HBConsistent", "field_at_position units A/m vs tesla / mu0", lambda: m(sol.field_at_position(pos, vector=True, units="A/m")), tot_v * FUv / mu_0)
+    add("HBConsistent", "field_at_position units uA/um vs tesla / mu0", lambda: m(sol.field_at_position(pos, vector=False, units="uA/um")), tot_z * FUv / mu_0)
+    # non-default `units=`: same physical value, and with_units=False returns the magnitude of with_units=True (total and per part)
+    for un, si in (("uT", 1e-6), ("T", 1.0), ("mT", 1e-3)):
+        for vec in (False, True):
+            ref_val = (tot_v if vec else tot_z) * FUv
+            add("UnitChoice", f"field_at_position(vector={vec}, units={un}) vs default units", lambda: m(sol.field_at_position(pos, vector=vec, units=un)) * si, ref_val)
+            add("UnitChoice", f"field_at_position(vector={vec}, units={un}): with_units=False vs magnitude of with_units=True",
+                lambda: np.asarray(sol.field_at_position(pos, vector=vec, units=un, with_units=False)), lambda: m(sol.field_at_position(pos, vector=vec, units=un)))
+        add("UnitChoice", f"field_at_position parts(units={un}): with_units=False vs True",
+            lambda: np.concatenate([np.asarray(x) for x in sol.field_at_position(pos, vector=True, units=un, with_units=False, return_sum=False)]),
+            lambda: np.concatenate([m(x) for x in sol.field_at_position(pos, vector=True, units=un, return_sum=False)]))
+    # linearity of the real kernels on the solution's currents (the device's own units)
+    J_s = sol.supercurrent_density.to(f"{cu} / {ln}").magnitude
+    J_n = sol.normal_current_density.to(f"{cu} / {ln}").magnitude
     w = dev.mesh.areas * dev.coherence_length.magnitude ** 2
     for vec in (False, True):
         f = lambda J: m(biot_savart_2d(pos[:, 0], pos[:, 1], pos[:, 2], positions=dev.points, current_densities=J, z0=0.0, areas=w,
-                                       length_units="um", current_units="uA", vector=vec).to("mT"))
+                                       length_units=ln, current_units=cu, vector=vec).to("T"))
         add("Linear", f"biot_savart_2d(vector={vec}): B(2 Js - 3 Jn) vs 2 B(Js) - 3 B(Jn)", f(2 * J_s - 3 * J_n), 2 * f(J_s) - 3 * f(J_n))
         add("Linear", f"biot_savart_2d(vector={vec}): B(-0.5 Js) vs -0.5 B(Js)", f(-0.5 * J_s), -0.5 * f(J_s))
-    # ---- vector_potential_at_position
+        add("MatchesDirectSum", f"biot_savart_2d(vector={vec}) in device units vs field_at_position part", f(J_s), (m(parts_v.supercurrent) if vec else m(parts_z.supercurrent)) * FUv)
+    # ---- vector_potential_at_position (default units: field_units * length_units)
+    AU = FUv * LU
     A_tot = m(sol.vector_potential_at_position(pos))
     A_parts = sol.vector_potential_at_position(pos, return_sum=False)
-    add("AppliedPlusInduced", "vector potential: total vs applied + supercurrent + normal",
-        A_tot, m(A_parts["applied"]) + m(A_parts["supercurrent_density"]) + m(A_parts["normal_current_density"]))
-    add("MatchesDirectSum", "vector potential (mT um) of the supercurrent vs direct Coulomb sum in SI",
-        m(A_parts["supercurrent_density"])[:, :2], ref_coulomb(np, ev_m, pts, Js, ar) * 1e3 * 1e6)
-    add("MatchesDirectSum", "vector potential of the normal current vs direct Coulomb sum", m(A_parts["normal_current_density"])[:, :2],
-        ref_coulomb(np, ev_m, pts, Jn, ar) * 1e3 * 1e6)
-    # applied part: symmetric gauge of the uniform field B = 0.8 mT (any constant shift allowed: compare differences)
-    ap = m(A_parts["applied"])[:, :2]
-    expect = 0.5 * 0.8 * np.stack([-pos[:, 1], pos[:, 0]], axis=1)
-    add("AppliedPlusInduced", "applied part vs B x r / 2 (differences between points)", ap - ap[0], expect - expect[0])
-    add("UnitChoice", "vector potential units T*m vs mT*um", lambda: m(sol.vector_potential_at_position(pos, units="T * m")) * 1e9, A_tot)
+    A_s, A_n, A_a = m(A_parts["supercurrent_density"]), m(A_parts["normal_current_density"]), m(A_parts["applied"])
+    add("AppliedPlusInduced", "vector potential: total vs applied + supercurrent + normal", A_tot, A_a + A_s + A_n)
+    cs, cn = ref_coulomb(np, ev_m, pts, Js, ar), ref_coulomb(np, ev_m, pts, Jn, ar)
+    add("MatchesDirectSum", "vector potential of the supercurrent vs direct Coulomb sum in SI", A_s[:, :2] * AU, cs)
+    add("MatchesDirectSum", "vector potential of the normal current vs direct Coulomb sum", A_n[:, :2] * AU, cn)
+    # applied part: symmetric gauge of the uniform field (any constant shift allowed: compare differences between points)
+    expect = 0.5 * B_phys * np.stack([-ev_m[:, 1], ev_m[:, 0]], axis=1)
+    add("AppliedPlusInduced", "applied part vs B x r / 2 (differences between points)", (A_a[:, :2] - A_a[0, :2]) * AU, expect - expect[0])
+    indep = expect + cs + cn
+    add("AppliedPlusInduced", "total vs independently evaluated applied + Coulomb reference (differences between points)",
+        (A_tot[:, :2] - A_tot[0, :2]) * AU, indep - indep[0])
+    for un, si in (("uT * um", 1e-12), ("T * m", 1.0), ("mT * mm", 1e-6), ("uT * nm", 1e-15)):
+        add("UnitChoice", f"vector_potential_at_position(units={un}) vs default units", lambda: m(sol.vector_potential_at_position(pos, units=un)) * si, A_tot * AU)
+        add("UnitChoice", f"vector_potential_at_position(units={un}): with_units=False vs magnitude of with_units=True",
+            lambda: np.asarray(sol.vector_potential_at_position(pos, units=un, with_units=False)), lambda: m(sol.vector_potential_at_position(pos, units=un)))
+        for part in ("applied", "supercurrent_density", "normal_current_density"):
+            add("UnitChoice", f"vector_potential_at_position(units={un}) part {part}: with_units=False vs True, and vs default units",
+                lambda: np.concatenate([np.asarray(sol.vector_potential_at_position(pos, units=un, with_units=False, return_sum=False)[part]) * si,
+                                        m(sol.vector_potential_at_position(pos, units=un, return_sum=False)[part]) * si]),
+                np.concatenate([m(A_parts[part]) * AU, m(A_parts[part]) * AU]))
+        add("AppliedPlusInduced", f"vector_potential_at_position(units={un}, with_units=False): total vs independent applied + Coulomb reference",
+            lambda: (lambda t: (t[:, :2] - t[0, :2]) * si)(np.asarray(sol.vector_potential_at_position(pos, units=un, with_units=False))), indep - indep[0])
+    if not args.get("loop", True):
+        return {"rel": rel, "nsites": len(dev.mesh.sites), "frames": len(sol.times), "u": u}
     # ---- current loop: relations only (the closed form vs quadrature comparison is NOT decided by the specification)
     lp = np.array([[0.7, 0.2, 0.5], [-1.2, 0.4, 1.5], [0.3, -2.0, -0.7], [2.5, 1.0, 0.2]])
     A1 = m(current_loop_vector_potential(lp, loop_center=(0.1, -0.2, 0.0), loop_radius=1.3, current=2.0))
@@ -227,4 +261,4 @@ def solved_relations(tdgl, args, tmp):
     add("LoopSymmetry", "loop potential: mirror z -> -z leaves A unchanged", m(current_loop_vector_potential(mir, loop_center=(0, 0, 0), loop_radius=1.3, current=2.0)), A0)
     add("LoopSymmetry", "loop potential is azimuthal: A . r_perp = 0, A_z = 0",
         np.concatenate([(A0[:, 0] * lp[:, 0] + A0[:, 1] * lp[:, 1]), A0[:, 2]]), np.zeros(2 * len(lp)), scale=np.abs(A0).max() * np.abs(lp).max())
-    return {"rel": rel, "nsites": len(dev.mesh.sites), "frames": len(sol.times)}
+    return {"rel": rel, "nsites": len(dev.mesh.sites), "frames": len(sol.times), "u": u}
